@@ -357,3 +357,6 @@ def run(ctx):
     rule_no_dontcare(ctx)
     rule_steps_total(ctx)
     rule_partial_results_kept(ctx)
+    # a failed thread-name read costs the name, not the thread (same rule instance as C04/every-tid-listed)
+    from rules import c04
+    c04.rule_every_tid_listed(ctx, R="C11/name-failure-keeps-thread")
